@@ -564,38 +564,52 @@ REN_EDGES = ["render", "render-with", "render-for", "for>render", "capture>rende
              "call>render", "block>render", "extblock>render", "tablerow>render", "extends"]
 
 
-def edge(kind: str, a: str, b: str, extra: dict[str, str]) -> str:
-    """Source of template *a* reaching template *b* through *kind*."""
+WRAPS = {
+    "if": ("{% if true %}", "{% endif %}"),
+    "unless": ("{% unless false %}", "{% endunless %}"),
+    "with": ("{% with w: 1 %}", "{% endwith %}"),
+    "for1": ("{% for w in (1..1) %}", "{% endfor %}"),
+    "case": ("{% case 1 %}{% when 1 %}", "{% endcase %}"),
+}
+
+
+def edge(kind: str, a: str, b: str, extra: dict[str, str], wraps: list[str] | None = None) -> str:
+    """Source of template *a* reaching template *b* through *kind*; *wraps* are neutral
+    block tags nested directly around the partial tag."""
     tag = "include" if "include" in kind else "render"
-    if kind in ("include", "render"):
-        return f"{{% {tag} '{b}' %}}"
-    if kind.endswith("-with"):
-        return f"{{% {tag} '{b}' with 1 as v %}}"
-    if kind.endswith("-for"):
-        return f"{{% {tag} '{b}' for (1..2) as v %}}"
-    if kind.startswith("for>"):
-        return f"{{% for i in (1..2) %}}{{% {tag} '{b}' %}}{{% endfor %}}"
-    if kind.startswith("tablerow>"):
-        return f"{{% tablerow i in (1..2) %}}{{% {tag} '{b}' %}}{{% endtablerow %}}"
-    if kind.startswith("capture>"):
-        return f"{{% capture c %}}{{% {tag} '{b}' %}}{{% endcapture %}}{{{{ c }}}}"
-    if kind.startswith("with>"):
-        return f"{{% with z: 1 %}}{{% {tag} '{b}' %}}{{% endwith %}}"
-    if kind.startswith("if>"):
-        return f"{{% if true %}}{{% {tag} '{b}' %}}{{% endif %}}"
-    if kind.startswith("call>"):
-        return f"{{% macro m %}}{{% {tag} '{b}' %}}{{% endmacro %}}{{% call m %}}"
-    if kind.startswith("block>"):
-        return f"{{% block k_{a} %}}{{% {tag} '{b}' %}}{{% endblock %}}"
-    if kind.startswith("extblock>"):
-        extra[f"{a}_base"] = f"<{{% block k_{a} %}}d{{% endblock %}}>"
-        return f"{{% extends '{a}_base' %}}{{% block k_{a} %}}{{% {tag} '{b}' %}}{{% endblock %}}"
     if kind == "extends":
         return f"{{% extends '{b}' %}}{{% block k_{a} %}}x{{% endblock %}}"
+    if kind.endswith("-with"):
+        core = f"{{% {tag} '{b}' with 1 as v %}}"
+    elif kind.endswith("-for"):
+        core = f"{{% {tag} '{b}' for (1..2) as v %}}"
+    else:
+        core = f"{{% {tag} '{b}' %}}"
+    for w in reversed(wraps or []):
+        core = WRAPS[w][0] + core + WRAPS[w][1]
+    if ">" not in kind:
+        return core
+    if kind.startswith("for>"):
+        return f"{{% for i in (1..2) %}}{core}{{% endfor %}}"
+    if kind.startswith("tablerow>"):
+        return f"{{% tablerow i in (1..2) %}}{core}{{% endtablerow %}}"
+    if kind.startswith("capture>"):
+        return f"{{% capture c %}}{core}{{% endcapture %}}{{{{ c }}}}"
+    if kind.startswith("with>"):
+        return f"{{% with z: 1 %}}{core}{{% endwith %}}"
+    if kind.startswith("if>"):
+        return f"{{% if true %}}{core}{{% endif %}}"
+    if kind.startswith("call>"):
+        return f"{{% macro m %}}{core}{{% endmacro %}}{{% call m %}}"
+    if kind.startswith("block>"):
+        return f"{{% block k_{a} %}}{core}{{% endblock %}}"
+    if kind.startswith("extblock>"):
+        extra[f"{a}_base"] = f"<{{% block k_{a} %}}d{{% endblock %}}>"
+        return f"{{% extends '{a}_base' %}}{{% block k_{a} %}}{core}{{% endblock %}}"
     raise ValueError(kind)
 
 
-def cycle_case(rng: random.Random) -> dict[str, Any]:
+def cycle_spec(rng: random.Random) -> dict[str, Any]:
     fam = rng.choice(["inc", "inc", "ren", "ren", "ext", "mixed-ext"])
     k = rng.randint(1, 4)
     while True:
@@ -615,31 +629,129 @@ def cycle_case(rng: random.Random) -> dict[str, Any]:
         k = max(1, k - 1)
     if all(x == "extends" for x in kinds):
         fam = "ext"
+    edges = []
+    for kind in kinds:
+        e: dict[str, Any] = {"kind": kind, "wraps": [], "pre": "", "post": "", "dup": False}
+        if kind != "extends":
+            if rng.random() < 0.45:
+                e["wraps"] = [rng.choice(list(WRAPS)) for _ in range(rng.choice([1, 2, 3, 4, 6, 8, 10]))]
+            if not kind.startswith("extblock>"):
+                e["pre"] = rng.choice(["", "x", "é\r\n", "{{ 1 }}", "{% assign q = 1 %}"])
+                e["post"] = rng.choice(["", "y", "DEAD"])
+                e["dup"] = rng.random() < 0.25
+        edges.append(e)
+    family_inc = any("include" in x for x in kinds)
+    if fam == "ext" and rng.random() < 0.4:
+        entry = "extends"
+    elif family_inc or (fam == "ext" and rng.random() < 0.5):
+        entry = rng.choice(["include", "include-for", "for>include"])
+    else:
+        entry = rng.choice(["render", "render-for", "for>render", "call>render"])
+    return {"entry": entry, "edges": edges}
+
+
+def build_cycle(spec: dict[str, Any]) -> dict[str, Any]:
+    edges = spec["edges"]
+    k = len(edges)
     names = [f"t{i}" for i in range(k)]
     partials: dict[str, str] = {}
     extra: dict[str, str] = {}
-    for i, kind in enumerate(kinds):
+    for i, e in enumerate(edges):
         a, b = names[i], names[(i + 1) % k]
-        src = edge(kind, a, b, extra)
-        if kind != "extends" and not kind.startswith("extblock>"):
-            pre = rng.choice(["", "x", "é\r\n", "{{ 1 }}", "{% assign q = 1 %}"])
-            post = rng.choice(["", "y", "{% if false %}{% " + ("include" if "include" in kind else "render") + f" '{b}' %}}{{% endif %}}"])
-            if rng.random() < 0.25:
-                src = src + src.replace("k_" + a, "k2_" + a).replace("macro m", "macro m2").replace("call m", "call m2")
-            src = pre + src + post
-        partials[a] = src
+        kind = e["kind"]
+        src = edge(kind, a, b, extra, e["wraps"])
+        if e["dup"]:
+            src = src + src.replace("k_" + a, "k2_" + a).replace("macro m", "macro m2").replace("call m", "call m2")
+        post = e["post"]
+        if post == "DEAD":
+            post = "{% if false %}{% " + ("include" if "include" in kind else "render") + f" '{b}' %}}{{% endif %}}"
+        partials[a] = e["pre"] + src + post
     partials.update(extra)
-    family_inc = any("include" in x for x in kinds)
-    entry_kind = rng.choice(["include", "include-for", "for>include"] if family_inc or fam == "ext" and rng.random() < 0.5
-                            else ["render", "render-for", "for>render", "call>render"])
-    if fam == "ext" and rng.random() < 0.4:
+    if spec["entry"] == "extends":
         root = "{% extends 't0' %}"
-        entry_kind = "extends"
     else:
-        root = "A" + edge(entry_kind, "root", "t0", {}) + "Z"
-    label = "+".join(sorted(set(kinds)))
-    return {"root": root, "partials": partials, "data": {}, "cycle": label, "entry": entry_kind,
-            "n_templates": len(partials)}
+        root = "A" + edge(spec["entry"], "root", "t0", {}) + "Z"
+    label = "+".join(sorted({e["kind"] for e in edges}))
+    return {"root": root, "partials": partials, "data": {}, "cycle": label, "entry": spec["entry"],
+            "n_templates": len(partials), "max_wraps": max(len(e["wraps"]) for e in edges)}
+
+
+def cycle_case(rng: random.Random) -> dict[str, Any]:
+    spec = cycle_spec(rng)
+    case = build_cycle(spec)
+    case["spec"] = spec
+    return case
+
+
+def cycle_family(case: dict[str, Any]) -> str:
+    """Coarse, stable name of the constructs on the cycle (used in mechanism keys)."""
+    text = " ".join(case["partials"].values())
+    tags = [t for t in ("include", "render", "extends") if re.search(r"{%\s*" + t + r"\b", text)]
+    return "+".join(tags) or "none"
+
+
+def shrink_cycle(spec: dict[str, Any], failing: Callable[[dict[str, Any]], bool], budget: int = 120) -> dict[str, Any]:
+    spec = copy.deepcopy(spec)
+    tries = 0
+
+    def attempt(cand: dict[str, Any]) -> bool:
+        nonlocal tries
+        tries += 1
+        try:
+            return bool(failing(cand))
+        except Exception:  # noqa: BLE001
+            return False
+
+    changed = True
+    while changed and tries < budget:
+        changed = False
+        # fewer templates on the cycle
+        for i in range(len(spec["edges"])):
+            if len(spec["edges"]) < 2:
+                break
+            cand = copy.deepcopy(spec)
+            del cand["edges"][i]
+            if attempt(cand):
+                spec, changed = cand, True
+                break
+        for i, e in enumerate(spec["edges"]):
+            for field, simple in (("dup", False), ("pre", ""), ("post", "")):
+                if e[field] != simple and tries < budget:
+                    cand = copy.deepcopy(spec)
+                    cand["edges"][i][field] = simple
+                    if attempt(cand):
+                        spec, changed = cand, True
+                        e = spec["edges"][i]
+            plain = "extends" if e["kind"] == "extends" else ("include" if "include" in e["kind"] else "render")
+            if e["kind"] != plain and tries < budget:
+                cand = copy.deepcopy(spec)
+                cand["edges"][i]["kind"] = plain
+                if attempt(cand):
+                    spec, changed = cand, True
+                    e = spec["edges"][i]
+            j = 0
+            while j < len(spec["edges"][i]["wraps"]) and tries < budget:
+                cand = copy.deepcopy(spec)
+                del cand["edges"][i]["wraps"][j]
+                if attempt(cand):
+                    spec, changed = cand, True
+                else:
+                    j += 1
+            # uniform wrappers read better
+            ws = spec["edges"][i]["wraps"]
+            if ws and any(w != "if" for w in ws) and tries < budget:
+                cand = copy.deepcopy(spec)
+                cand["edges"][i]["wraps"] = ["if"] * len(ws)
+                if attempt(cand):
+                    spec, changed = cand, True
+        ent = spec["entry"]
+        plain = "extends" if ent == "extends" else ("include" if "include" in ent else "render")
+        if ent != plain and tries < budget:
+            cand = copy.deepcopy(spec)
+            cand["entry"] = plain
+            if attempt(cand):
+                spec, changed = cand, True
+    return spec
 
 
 def chain_case(rng: random.Random, depth: int) -> dict[str, Any]:
